@@ -59,7 +59,16 @@ def main():
     def evaluate(item):
         mod = mods[item['lang']]
         try:
-            if item['kind'] == 'binary':
+            if item['kind'] == 'binary' and item.get('pickled'):
+                # the categories and the seen-rule set were built in ANOTHER interpreter (another string-hash seed) and
+                # arrive as a pickle, exactly as the arguments of depccg.parsing.run reach a pool worker
+                import base64, pickle
+                x, y, seen_obj = pickle.loads(base64.b64decode(item['pickled']))
+                before = (str(x), str(y), hash(x), hash(y))
+                res = mod.apply_binary_rules(x, y, seen_obj)
+                after = (str(x), str(y), hash(x), hash(y))
+                same_value = (x == Category.parse(before[0]) and y == Category.parse(before[1]))
+            elif item['kind'] == 'binary':
                 x, y = cat(item['x']), cat(item['y'])
                 before = (str(x), str(y), hash(x), hash(y))
                 seen = seen_of(item.get('seen'))
